@@ -491,3 +491,11 @@ PROPS['C14']['kani'] = PROPS['C14']['kani'] + [K_C18_STRINGS[2]]
 PROPS['C01']['verus'] = PROPS['C01']['verus'] + ['c14_filter_loops']
 PROPS['C04']['verus'] = PROPS['C04']['verus'] + ['c14_filter_loops']
 PROPS['C15']['verus'] = ['c14_filter_loops']
+
+PROPS['C13']['decl'] = True
+PROPS['C05']['verus'] = PROPS['C05']['verus'] + ['c14_filter_loops']
+PROPS['C10']['kani'] = PROPS['C10']['kani'] + [
+    H(ROOT + 'c10::c10_k_ctap1_version_overridden', ['ctap1::Authenticator::call_ctap1 (Version arm)', 'Rpc::call (ctap1)'], kind='proof',
+      note='every six-byte value returned by an overriding version()'),
+]
+PROPS['C17']['kani'] = PROPS['C17']['kani'] + K_FILTERED_LEN
